@@ -1,31 +1,16 @@
-use hnsw_rs::prelude::*;
-use verif_harness::entropy::*;
+use verif_harness::e2_handler::*;
 fn main() {
-    let menu = seed_menu(8, 0.2, 4, 12, 5);
-    let pts: Vec<Vec<f32>> = vec![vec![1.0, 1.0], vec![1.0, 1.0], vec![1.0, 1.0], vec![1.0, 1.0], vec![2.0, -1.0]];
-    for (name, seed) in [("benign", &menu.benign), ("sp4", &menu.special[4]), ("sp0", &menu.special[0]), ("sp2", &menu.special[2])] {
-        assert!(plan(seed, None));
-        let mut h: Hnsw<f32, DistL2> = Hnsw::new(8, pts.len(), 4, 50, DistL2);
-        h.set_keeping_pruned(true);
-        h.set_extend_candidates(true);
-        h.modify_level_scale(0.2);
-        for (i, p) in pts.iter().enumerate() {
-            h.insert((p, i));
-        }
-        clear();
-        let r = h.search(&[-1.0, -1.0], 5, 16);
-        eprintln!("{name}: levels {:?} maxlevel {} search -> {:?}", levels(seed, 8, 0.2, 4, 5), h.get_max_level_observed(), r.iter().map(|n| (n.d_id, n.distance)).collect::<Vec<_>>());
-        let pts2: Vec<Vec<f32>> = vec![vec![0.0, 0.0], vec![1.0, 0.0], vec![0.0, 1.0], vec![3.0, 3.0], vec![2.0, -1.0]];
-        assert!(plan(seed, None));
-        let mut h: Hnsw<f32, DistL2> = Hnsw::new(8, pts2.len(), 4, 50, DistL2);
-        h.set_keeping_pruned(true);
-        h.set_extend_candidates(true);
-        h.modify_level_scale(0.2);
-        for (i, p) in pts2.iter().enumerate() {
-            h.insert((p, i));
-        }
-        clear();
-        let r = h.search(&[-1.0, -1.0], 5, 16);
-        eprintln!("{name} distinct points: search -> {:?}", r.iter().map(|n| (n.d_id, n.distance)).collect::<Vec<_>>());
+    let mut e = inputlayer::IQLEngine::new();
+    e.add_tuples("e", vec![inputlayer::Tuple::new(vec![inputlayer::Value::Int64(2), inputlayer::Value::Int64(3)])]);
+    for p in ["h(X, Y) <- e(X, Z), Y = Z * 2.0", "h(X, Y) <- e(X, Z), Y = Z * 2", "g(X, 2.0) <- e(X, _)", "g(X, 2.5) <- e(X, _)", "h(X, Y) <- e(X, Z), Y = Z * 0.5"] {
+        println!("{p} => {:?}", e.execute_tuples(p));
     }
+    let env = Env::new("probe");
+    env.create_kg("A");
+    env.insert("A", "e", vec![inputlayer::Tuple::new(vec![inputlayer::Value::Int64(2), inputlayer::Value::Int64(3)])]);
+    println!("{:?}", env.query_program(Some("A"), "h(X, Y) <- e(X, Z), Y = Z * 2.0\n?h(A,B)").map(|q| q.rows));
+    println!("{:?}", env.query_program(Some("A"), "+p(X, Y) <- e(X, Z), Y = Z * 2.0").map(|q| q.rows));
+    println!("{:?}", env.query_program(Some("A"), "?p(A,B)").map(|q| q.rows));
+    println!("{:?}", env.query_program(Some("A"), "+p2(X, 2.0) <- e(X, _)").map(|q| q.rows));
+    println!("{:?}", env.query_program(Some("A"), "?p2(A,B)").map(|q| q.rows));
 }
